@@ -521,6 +521,15 @@ func c16sRun(t *testing.T, c c16sCase) (out c16sOut) {
 						cl["SetName"] = true
 					}
 				}
+				// lib/stat sums a batch's durations in a time.Duration (int64 ns). All durations are >= 0, so
+				// the sum of ALL durations added to the instance bounds the sum of every single report: if it
+				// fits an int64, no report's sum can wrap. Otherwise what Average says is not determined by the
+				// statement: the duration-sum part of the oracle is skipped (counts, ids, order, single
+				// durations and the largest duration are still judged).
+				sumFits := sumUs <= math.MaxInt64/1000
+				if !sumFits {
+					cl["duration-sum-exceeds-int64 (sum/Average not judged, counts only)"] = true
+				}
 				durOf := func(id int) (time.Duration, bool) {
 					i, pos := id%c16sIDMod, id/c16sIDMod
 					if id < 0 || i >= len(c.Ev) || c.Ev[i].K != "add" || c.Ev[i].M%len(rec.inst) != k {
@@ -602,11 +611,11 @@ func c16sRun(t *testing.T, c c16sCase) (out c16sOut) {
 						if size != len(p.ids) || e.r.Drops != p.drops {
 							failf("%s: %sreport %d says %d tasks / %d drops, Execute received %d tasks / %d drops", when, who, ri, size, e.r.Drops, len(p.ids), p.drops)
 						}
-						if p.sum != sum {
+						if sumFits && p.sum != sum {
 							failf("%s: %sreport %d: batch duration %v handed to Execute, its tasks sum up to %v", when, who, ri, p.sum, sum)
 						}
 						if len(p.ids) > 0 {
-							if want := float32(sum/time.Millisecond) / float32(len(p.ids)); e.r.Average != want {
+							if want := float32(sum/time.Millisecond) / float32(len(p.ids)); sumFits && e.r.Average != want {
 								failf("%s: %sreport %d: Average %v, tasks give %v", when, who, ri, e.r.Average, want)
 							}
 							if want := float32(mx) / float32(time.Millisecond); len(p.ids) < 1000 && e.r.Top99p9th != want {
@@ -639,7 +648,7 @@ func c16sRun(t *testing.T, c c16sCase) (out c16sOut) {
 				}
 				// every non-empty report truncates its duration sum to whole milliseconds
 				wantMs := float64(sumUs) / 1000
-				if tol := float64(nonEmpty)*1.001 + 1e-5*wantMs; gotSumMs > wantMs+tol || gotSumMs < wantMs-tol {
+				if tol := float64(nonEmpty)*1.001 + 1e-5*wantMs; sumFits && (gotSumMs > wantMs+tol || gotSumMs < wantMs-tol) {
 					failf("%s: %sdurations add up to %.3fms, the reports (Average*size) account for %.3fms", when, who, wantMs, gotSumMs)
 				}
 				if adds > 0 && !big {
